@@ -1,7 +1,7 @@
 /-
 Helper lemmas for C18 (5): exact `linspace` over an ordered field is a legal boundary vector for a
 sorted non-empty chromosome (`BoundsOK`), so everything proved for arbitrary boundaries applies to
-`haplobin` as the code computes it (in exact arithmetic).
+`haplobinPrerepair` as the code computes it (in exact arithmetic).
 -/
 import PybropsModel.Lemmas.HaploBin
 set_option autoImplicit false
